@@ -64,6 +64,7 @@ type Item struct {
 type HReq struct {
 	Route string `json:"route"` // loki | zipkin | lokiproto | prom | otlp | profile
 	Body  string `json:"body"`  // hex (as sent on the wire)
+	Gen   string `json:"gen,omitempty"` // instead of body: "bigzipkin:<spans>:<pad bytes>:<first id>:<tag>" (synthesised, > 1 MiB)
 	Query string `json:"query,omitempty"`
 	Items []Item `json:"items"` // what the parser emits for this body (learnt by a dry run)
 }
@@ -72,6 +73,7 @@ type Op2 struct {
 	H  int    `json:"h,omitempty"`
 	S  int    `json:"s"`
 	Ok bool   `json:"ok,omitempty"`
+	E  int    `json:"e,omitempty"` // ret with ok = false: index of the error text (errTexts) the INSERT fails with
 }
 type Ev2 struct {
 	T      string  `json:"t"` // dial swap send done answer
@@ -93,6 +95,43 @@ type Case2 struct {
 	Drained  bool     `json:"drained"`
 	Err      string   `json:"err,omitempty"`
 	Rows     int      `json:"rows"`
+}
+
+// wire returns the bytes sent on the wire for a push
+func (hr *HReq) wire() []byte {
+	if hr.Gen != "" {
+		var n, pad int
+		var first int64
+		var tag string
+		parts := strings.SplitN(hr.Gen, ":", 5)
+		if len(parts) == 5 && parts[0] == "bigzipkin" {
+			fmt.Sscan(parts[1], &n)
+			fmt.Sscan(parts[2], &pad)
+			fmt.Sscan(parts[3], &first)
+			tag = parts[4]
+			return bigZipkin(n, pad, first, tag)
+		}
+	}
+	b, _ := hex.DecodeString(hr.Body)
+	return b
+}
+
+// bigZipkin: n spans with one small and one large tag each; the parser accounts payload + tag values, so
+// pad*2*n > 1 MiB makes onSpan cut the request into several chunks
+func bigZipkin(n, pad int, first int64, tag string) []byte {
+	var sb strings.Builder
+	sb.WriteString("[")
+	for i := 0; i < n; i++ {
+		id := first + int64(i)
+		if i > 0 {
+			sb.WriteString(",")
+		}
+		filler := strings.Repeat(fmt.Sprintf("%06d", id%1000000), pad/6+1)[:pad]
+		fmt.Fprintf(&sb, `{"traceId":"%032x","id":"%016x","name":"big-%s-%d","timestamp":%d,"duration":%d,"localEndpoint":{"serviceName":"svc-%s"},"tags":{"k":"v%d","pad":"%s"}}`,
+			id, id, tag, id, 1700000000000000+id, 10+id%7, tag, id, filler)
+	}
+	sb.WriteString("]")
+	return []byte(sb.String())
 }
 
 // ---------------------------------------------------------------------------------------------- row contents
@@ -380,7 +419,7 @@ func parserCtx() context.Context {
 // every emitted row an id
 func (b *bench2) dryParse(hr *HReq) []Item {
 	route := hr.Route
-	body, _ := hex.DecodeString(hr.Body)
+	body := hr.wire()
 	var ch chan *model.ParserResponse
 	cache := numbercache.NewCache[uint64](time.Hour, func(v uint64) []byte {
 		x := make([]byte, 8)
@@ -506,7 +545,7 @@ func start2(c *Case2) *runner2 {
 }
 
 func (r *runner2) serve(h int, req *HReq) {
-	body, _ := hex.DecodeString(req.Body)
+	body := req.wire()
 	target := "/push"
 	if req.Query != "" {
 		target += "?" + req.Query
@@ -556,6 +595,9 @@ func (r *runner2) do(o *Op2) []Ev2 {
 			return nil
 		}
 		b.log(Ev{T: "done", S: o.S, Ok: o.Ok})
+		b.mu.Lock()
+		b.errText[o.S] = o.E
+		b.mu.Unlock()
 		b.release[o.S] <- o.Ok
 	}
 	if err := waitQuiet(); err != nil {
@@ -701,12 +743,33 @@ func (g *gen) runGenerated2(c *Case2, uniq *int64) {
 		c.Dials = append(c.Dials, []bool{})
 	}
 	c.Class = fmt.Sprintf("attempts=%d", c.Attempts)
+	// two scripted classes beside the random ones (by case number, so that every run has them):
+	//  exhaust : every INSERT fails, with one of the error texts of errTexts, until every push is answered
+	//  bigspans: one Zipkin push above the parser's 1 MiB chunk threshold (several chunks) whose first INSERT fails
+	class := ""
+	switch c.ID % 10 {
+	case 2, 7:
+		class = "exhaust"
+		c.Attempts = 1 + r.Intn(3)
+	case 3:
+		class = "bigspans"
+		c.Attempts = 2 + r.Intn(2)
+	}
+	if class != "" {
+		c.Class = fmt.Sprintf("%s attempts=%d", class, c.Attempts)
+	}
 	rn := start2(c)
 	nreq := 1 + r.Intn(4)
+	answers := 0
 	step := func(o Op2) []Ev2 {
 		c.Ops = append(c.Ops, o)
 		evs := rn.do(&c.Ops[len(c.Ops)-1])
 		c.Obs = append(c.Obs, evs)
+		for _, e := range evs {
+			if e.T == "answer" {
+				answers++
+			}
+		}
 		return evs
 	}
 	newReq := func() {
@@ -745,7 +808,70 @@ func (g *gen) runGenerated2(c *Case2, uniq *int64) {
 		c.Reqs = append(c.Reqs, hr)
 		step(Op2{T: "http", H: h})
 	}
+	state := func(s int) (bool, bool) {
+		rn.b.mu.Lock()
+		defer rn.b.mu.Unlock()
+		return rn.b.inflight[s], rn.b.before[s]
+	}
 	nops := 6 + r.Intn(14)
+	switch class {
+	case "exhaust":
+		nops = 0
+		for k := 1 + r.Intn(2); k > 0; k-- {
+			newReq()
+		}
+		// the error texts of this script: a reset connection in every second script of the class
+		var pick []int
+		if (c.ID/5+int(g.seed))%2 == 0 {
+			pick = []int{1, 2, 10}
+		} else {
+			pick = []int{3, 4, 5, 6, 7, 8, 9, 11, 0}
+		}
+		et := pick[(c.ID/10+int(g.seed/2))%len(pick)]
+		for round := 0; round < 40 && rn.b.trouble == "" && answers < len(c.Reqs); round++ {
+			for s := range l2kinds {
+				fl, bf := state(s)
+				switch {
+				case bf:
+					step(Op2{T: "send", S: s})
+				case fl:
+					step(Op2{T: "ret", S: s, Ok: false, E: et})
+				default:
+					step(Op2{T: "plan", S: s})
+				}
+			}
+		}
+	case "bigspans":
+		nops = 0
+		n := 40 + r.Intn(20)
+		h := len(c.Reqs)
+		hr := HReq{Route: "zipkin", Gen: fmt.Sprintf("bigzipkin:%d:%d:%d:c%dh%d", n, 30000, *uniq+1, c.ID, h)}
+		*uniq += int64(n)
+		c.Rows += n
+		hr.Items = rn.b.dryParse(&hr)
+		c.Reqs = append(c.Reqs, hr)
+		step(Op2{T: "http", H: h})
+		if r.Intn(3) == 0 {
+			newReq()
+		}
+		// the first INSERT of the span tags and / or of the spans fails: the chunks are submitted again
+		order := []int{gTags, gSpans}
+		if r.Intn(2) == 0 {
+			order = []int{gSpans, gTags}
+		}
+		for k, s := range order {
+			if k == 1 && r.Intn(3) == 0 {
+				break
+			}
+			step(Op2{T: "plan", S: s})
+			if _, bf := state(s); bf {
+				step(Op2{T: "send", S: s})
+			}
+			if fl, _ := state(s); fl {
+				step(Op2{T: "ret", S: s, Ok: false, E: r.Intn(len(errTexts))})
+			}
+		}
+	}
 	for i := 0; i < nops && rn.b.trouble == ""; i++ {
 		s := r.Intn(len(l2kinds))
 		rn.b.mu.Lock()
@@ -758,7 +884,11 @@ func (g *gen) runGenerated2(c *Case2, uniq *int64) {
 		case bf && x < 70:
 			step(Op2{T: "send", S: s})
 		case fl && x < 80:
-			step(Op2{T: "ret", S: s, Ok: r.Intn(5) < 2})
+			if ok := r.Intn(5) < 2; ok {
+				step(Op2{T: "ret", S: s, Ok: true})
+			} else {
+				step(Op2{T: "ret", S: s, Ok: false, E: r.Intn(len(errTexts))})
+			}
 		case !bf && !fl:
 			// a flush planned while a Do is out would race with the retries once that Do returns
 			step(Op2{T: "plan", S: s})
